@@ -143,7 +143,45 @@ async fn client(seed: u64, t: u64, nops: u64, names: Arc<Vec<String>>, hist: Arc
             }
         }
         let n = p.below(names.len() as u64) as usize;
-        match p.below(10) {
+        match p.below(11) {
+            10 => {
+                // an instant spawn whose pre_start fails, watched through the reference that exists at once: the moment the watcher
+                // sees Stopped a wait() would return, so from then on the name must be free (lookup, re-spawn)
+                let mut spec = ProbeSpec::new(3000 * (t + 1) + op, Some(names[n].clone()), trace.clone());
+                spec.pre_start = vec![Step::Yield, Step::Err];
+                let spec = Arc::new(spec);
+                let call = stamp();
+                if let Ok((aref, mut outer)) = ractor::ActorRuntime::<Probe>::spawn_instant(spec.name.clone(), Probe { spec: spec.clone() }, ()) {
+                    let mut seen = false;
+                    for _ in 0..2_000_000u64 {
+                        if aref.get_status() == ActorStatus::Stopped {
+                            seen = true;
+                            break;
+                        }
+                        if yields {
+                            tokio::task::yield_now().await;
+                        } else {
+                            std::hint::spin_loop();
+                        }
+                    }
+                    let pid = pid_of(&aref.get_cell());
+                    if !seen {
+                        // not seen in time: fall back to the start task's own completion (no lookup clause then)
+                        let _ = (&mut outer).await;
+                    }
+                    let ret = stamp();
+                    hist.lock().unwrap().holders.push(Holder { name: n, pid, call, ret, ok: false, already_registered: false, term_req: call, wait_ret: ret, failing_start: true });
+                    if seen {
+                        let c2 = stamp();
+                        let r = ractor::registry::where_is(&names[n]);
+                        let r2 = stamp();
+                        hist.lock().unwrap().lookups.push(Lookup { name: n, by_pid: None, call: c2, ret: r2, result: r.map(|c| pid_of(&c)) });
+                    }
+                    if seen {
+                        let _ = outer.await;
+                    }
+                }
+            }
             0..=2 => {
                 // spawn under a shared name (sometimes with a failing pre_start)
                 let failing = p.chance(1, 6);
@@ -277,6 +315,23 @@ async fn client(seed: u64, t: u64, nops: u64, names: Arc<Vec<String>>, hist: Arc
     let _ = sup;
 }
 
+/// C10 'fail without side effects': a pid lifecycle listener must only ever hear about actors whose spawn went through
+/// (or got as far as pre_start); a spawn refused with ActorAlreadyRegistered announces nothing.
+#[cfg(feature = "cluster")]
+fn pid_event_oracle(trace: &Trace, hist: &Hist, also_known: &[u64]) -> Vec<(String, String)> {
+    let mut v = vec![];
+    let known: std::collections::HashSet<u64> = hist.holders.iter().map(|h| h.pid).chain(also_known.iter().copied()).collect();
+    for r in trace.snapshot() {
+        if let crate::trace::Ev::Sup { uid: 2, kind, who, .. } = &r.ev {
+            if matches!(kind, crate::trace::SupKind::PidSpawn | crate::trace::SupKind::PidTerminate) && !known.contains(who) {
+                v.push(("refused-spawn-side-effect".to_string(), format!("the pid lifecycle listener received {kind:?} for pid {who}, which belongs to no actor of this scenario that was ever spawned successfully or ran pre_start (a refused spawn announced itself)")));
+                break;
+            }
+        }
+    }
+    v
+}
+
 fn finish(seed: u64, hist: &Hist, desc: Vec<String>, extra: Vec<(String, String)>) -> Outcome {
     let (mut v, in_definite, contended) = check(hist);
     v.extend(extra);
@@ -313,6 +368,13 @@ pub fn run_one_th(seed: u64, rt: &tokio::runtime::Runtime) -> Outcome {
     let hist = Arc::new(Mutex::new(Hist::default()));
     let sup_spec = Arc::new(ProbeSpec::new(1, None, trace.clone()));
     let (sup, sup_h) = rt.block_on(spawn_probe(&sup_spec, None)).expect("sup");
+    #[cfg(feature = "cluster")]
+    let pidmon = {
+        let mut m = ProbeSpec::new(2, None, trace.clone());
+        m.pre_start = vec![Step::PidMonitor];
+        let m = Arc::new(m);
+        rt.block_on(spawn_probe(&m, None)).expect("pid monitor")
+    };
     let mut clients: Vec<Box<dyn FnOnce() + Send>> = vec![];
     for t in 0..nthreads {
         let (names, hist, trace, supc, h) = (names.clone(), hist.clone(), trace.clone(), sup.get_cell(), rt.handle().clone());
@@ -320,10 +382,18 @@ pub fn run_one_th(seed: u64, rt: &tokio::runtime::Runtime) -> Outcome {
         clients.push(Box::new(move || h.block_on(client(seed, t, nops, names, hist, trace, supc, false, Some(tl)))));
     }
     th::run_clients(clients);
+    let mut extra = vec![];
+    #[cfg(feature = "cluster")]
+    {
+        // every event emitted so far has been queued to the listener; a Flush behind them makes sure they were logged
+        let _ = rt.block_on(pidmon.0.call(PMsg::Flush, Some(std::time::Duration::from_secs(20))));
+        extra.extend(pid_event_oracle(&trace, &hist.lock().unwrap(), &[pid_of(&sup.get_cell()), pid_of(&pidmon.0.get_cell())]));
+        pidmon.0.stop(None);
+        let _ = rt.block_on(pidmon.1);
+    }
     sup.stop(None);
     let _ = rt.block_on(sup_h);
     th::end();
-    let mut extra = vec![];
     let _ = crate::th::settle_leaks();
     for l in vt::global_leaks() {
         extra.push(("leak".to_string(), l));
@@ -344,10 +414,19 @@ pub fn run_one_vt(seed: u64) -> Outcome {
     let nops = p.range(4, 24);
     let hist = Arc::new(Mutex::new(Hist::default()));
     let h2 = hist.clone();
+    let extra_vt: Arc<Mutex<Vec<(String, String)>>> = Default::default();
+    let ex2 = extra_vt.clone();
     let r = vt::run(seed, defer, async move {
         let trace = Arc::new(Trace::new());
         let sup_spec = Arc::new(ProbeSpec::new(1, None, trace.clone()));
         let (sup, sup_h) = spawn_probe(&sup_spec, None).await.expect("sup");
+        #[cfg(feature = "cluster")]
+        let pidmon = {
+            let mut m = ProbeSpec::new(2, None, trace.clone());
+            m.pre_start = vec![Step::PidMonitor];
+            let m = Arc::new(m);
+            spawn_probe(&m, None).await.expect("pid monitor")
+        };
         let mut tasks = vec![];
         for t in 0..ntasks {
             tasks.push(vt::spawn_h(&format!("c10-client{t}"), client(seed, t, nops, names.clone(), h2.clone(), trace.clone(), sup.get_cell(), true, None)));
@@ -355,11 +434,19 @@ pub fn run_one_vt(seed: u64) -> Outcome {
         for t in tasks {
             let _ = t.await;
         }
+        #[cfg(feature = "cluster")]
+        {
+            vt::settle().await;
+            let _ = pidmon.0.call(PMsg::Flush, None).await;
+            ex2.lock().unwrap().extend(pid_event_oracle(&trace, &h2.lock().unwrap(), &[pid_of(&sup.get_cell()), pid_of(&pidmon.0.get_cell())]));
+            pidmon.0.stop(None);
+            let _ = pidmon.1.await;
+        }
         sup.stop(None);
         let _ = sup_h.await;
         vt::quiesce(1).await;
     });
-    let mut extra = vec![];
+    let mut extra: Vec<(String, String)> = std::mem::take(&mut *extra_vt.lock().unwrap());
     if r.is_none() {
         extra.push(("stuck".to_string(), "scenario pending at the virtual-time horizon".to_string()));
     }
